@@ -99,6 +99,13 @@ def install_manual_hints():
     from pyvc import symex
     # which facts the two pair-level rejection obligations need (a hint only:
     # it selects a subset of the assumptions)
+    # second route for the two large grammar_shape VCs (cvc5 needs the
+    # header decomposition and the pair facts only; 0.2 s instead of unknown)
+    symex.MANUAL_HINTS[NAME + '#post.grammar_shape'] = {
+        'include': ['ret__read_until', 'pre!', 'suf!', 'rest!', 'wj!', 'k!'],
+        'exclude': ['Count(', 'Join(', 'ParseOpts', 'dmap', 'ddom', 'elem!',
+                    'SplitHead', 'SplitTail', 'sk_'],
+    }
     symex.MANUAL_HINTS[NAME + '#raises.DiffXParseError.internal'] = {
         'include': ['elem!', 'SplitHead', 'SplitTail', 'k!', 'InRe(pre!'],
         'exclude': ['Contains(g4', 'Contains(At_', 'wj!', 'Count(', 'Join(',
